@@ -103,7 +103,18 @@ package base
 //@   modifies gCompN, gCompRecv, gAdded
 
 // a context in the pool has been reset: it carries no arguments of a previous request
-//@ poolinv "*core/base.EntryContext": it.Input != nil && len(it.Input.Args) == 0
+// and no block error of a previous request: its rule-check result (if it has one) is a plain "pass", so that a later
+// block fills a NEW block error with exactly what the blocking slot says (ResetToBlockedWith on a result that still
+// carries an error only overwrites the fields named by its options)
+//@ spec func cleanErr(e) = e == nil || (e.blockType == BlockTypeUnknown && len(e.blockMsg) == 0 && dynptr(e.rule) == 0 && e.snapshotValue == nil)
+//@ poolinv "*core/base.EntryContext": it.Input != nil && len(it.Input.Args) == 0 && (it.RuleCheckResult != nil ==> it.RuleCheckResult.status == ResultStatusPass && cleanErr(it.RuleCheckResult.blockErr) && it.RuleCheckResult.nanosToWait == 0)
+
+
+//@ func (r *TokenResult) ResetToPass()
+//@   props C01, C16
+//@   requires r != nil
+//@   ensures[plain-pass] r.status == ResultStatusPass && r.blockErr == nil && r.nanosToWait == 0
+//@   modifies r.status, r.blockErr, r.nanosToWait
 
 //@ func (sc *SlotChain) Entry(ctx) r
 //@   props C01, C16
@@ -119,6 +130,7 @@ package base
 //@   ensures[first-block-wins] r != nil && blocked(r) ==> gChkN > c0 && gChkN <= c0 + len(sc.ruleChecks) && r == sel(gChkRes, gChkN - 1) && (forall j Int :: c0 <= j && j < gChkN - 1 ==> !sel(gChkBlocked, j))
 //@   ensures[pass-all-consulted] r != nil && !blocked(r) ==> gChkN == c0 + len(sc.ruleChecks) && (forall j Int :: c0 <= j && j < gChkN ==> !sel(gChkBlocked, j))
 //@   ensures[result-in-context] r != nil ==> r == ctx.RuleCheckResult && (blocked(r) ==> r.blockErr != nil)
+//@   ensures[pass-carries-no-error] r != nil && !blocked(r) ==> r.status == ResultStatusPass && r.blockErr == nil && r.nanosToWait == 0
 //@   ensures[told-passed-once] r != nil && !blocked(r) ==> gPassN == a0 + len(sc.stats) && gBlkN == b0 && (forall j Int :: a0 <= j && j < gPassN ==> sel(gPassRecv, j) == dynptr(sc.stats[j - a0]))
 //@   modifies gPrepN, gPrepRecv, gChkN, gChkRecv, gChkRes, gChkBlocked, gPassN, gPassRecv, gBlkN, gBlkRecv, gBlkErr, gAdded, gConc, ctx.RuleCheckResult, ctx.err, ctx.StatNode, all(TokenResult.status), all(TokenResult.blockErr), all(TokenResult.nanosToWait)
 //@   ensures[told-blocked-once] r != nil && blocked(r) ==> gBlkN == b0 + len(sc.stats) && gPassN == a0 && (forall j Int :: b0 <= j && j < gBlkN ==> sel(gBlkRecv, j) == dynptr(sc.stats[j - b0]) && sel(gBlkErr, j) == ref(r.blockErr))
@@ -192,6 +204,7 @@ package base
 //@   assumed
 //@   ensures ctx != nil && allocated(ctx) && ctx.Input != nil && allocated(ctx.Input) && ctx.RuleCheckResult != nil && allocated(ctx.RuleCheckResult) && !blocked(ctx.RuleCheckResult)
 //@   ensures ctx.err == nil && ctx.Resource == nil && dynptr(ctx.StatNode) == 0 && ctx.startTime == clock_ms && len(ctx.Input.Args) == 0
+//@   ensures cleanErr(ctx.RuleCheckResult.blockErr) && ctx.RuleCheckResult.nanosToWait == 0
 //@   modifies all(EntryContext.startTime)
 
 //@ func NewBlockErrorFromDeepCopy(from) r
